@@ -241,6 +241,10 @@ class RunEval:
         if isinstance(target, ast.Name):
             self.env[target.id] = value
             return
+        if isinstance(target, (ast.Tuple, ast.List)) and isinstance(value, (list, tuple)) and len(value) == len(target.elts):
+            for t_, v_ in zip(target.elts, value):
+                self.store(t_, v_)
+            return
         if isinstance(target, ast.Subscript) and isinstance(target.value, ast.Name):
             base = self.env.get(target.value.id)
             idx = self.ev(target.slice)
@@ -300,7 +304,8 @@ class RunEval:
 
 
 def _split_obligation(run, ix, spec, binary):
-    f = ix.func(spec)
+    # (a splitting routine whose block was moved into a private helper is read through the helper's statements)
+    f = ix.inlined(ix.func(spec))
     m = sp.Symbol("m", positive=True, integer=True)
     q = sp.Symbol("q", nonnegative=True, integer=True)
     v = sp.Symbol("v")
